@@ -184,6 +184,15 @@ def blowup(kind, n, lang):
         if rs:
             return "\n".join(f"fn f{i}(a: i32) -> i32 {{\n    a + {i % 3}\n}}\n" for i in range(n))
         return "\n".join(f"function f{i}(a) {{\n    return a + {i % 3};\n}}\n" for i in range(n))
+    elif kind.startswith("directive-"):
+        # a long run after a suppression / directive keyword (regex-parsed comments): n repetitions of a short token,
+        # ended by a character the pattern does not expect
+        c = "#" if py else "//"
+        head = {"directive-noqa": f"{c} noqa: ", "directive-type": f"{c} type: ignore[", "directive-pylint": f"{c} pylint: disable=",
+                "directive-thailint": f"{c} thailint: ignore[", "directive-eslint": f"{c} eslint-disable-next-line ", "directive-nosec": f"{c} nosec ",
+                "directive-dry": f"{c} dry: ignore-block "}[kind]
+        unit = ["E501", "a,", "B1 ", "x-y,", "W0"][n % 5]
+        body = f"{decl}v = 1{end}  {head}" + unit * n + "!"
     elif kind == "bigdec":  # one numeric literal with n digits
         body = f"{decl}v = " + "7" * n + end
     elif kind == "bighex":
@@ -201,7 +210,8 @@ def blowup(kind, n, lang):
     return f"function f(a, obj) {{\n    {body}\n}}\n"
 
 
-BLOWUPS = ["bigdec", "bighex", "parens", "brackets", "sum", "sum-numbers", "chain", "strcat", "list", "unary", "elif", "blocks", "functions", "longline", "comment"]
+BLOWUPS = ["directive-noqa", "directive-type", "directive-pylint", "directive-thailint", "directive-eslint", "directive-nosec", "directive-dry",
+           "bigdec", "bighex", "parens", "brackets", "sum", "sum-numbers", "chain", "strcat", "list", "unary", "elif", "blocks", "functions", "longline", "comment"]
 
 BAD_UTF8 = [b"\xff\xfe", b"\xc3\x28", b"\xe2\x82", b"\xf0\x28\x8c\x28", b"\x80", b"\xed\xa0\x80"]
 INSERTS = [b"(", b")", b"[", b"]", b"{", b"}", b'"', b"'", b"`", b'"""', b"\\", b"\x00", b"\x0c", b"\r", b"\t", b"\xef\xbb\xbf", b"/*", b"*/", b"#", b"//", b"${", b"<", b">", b"=>", b"|", b"\\u", b"\xe2\x80\xa8"]
